@@ -261,8 +261,18 @@ func (lv *LeafVariants) GetHighestPrecedence(onlyNewOrUpdated bool, includeDefau
 		return secondHighest
 	}
 
-	// otherwise return nil
-	return nil
+	// the secondhighest may be marked for deletion as well (several intents of one
+	// transaction): the best of the entries that are not marked for deletion takes over
+	var next *LeafEntry
+	for _, e := range lv.les {
+		if e.GetDeleteFlag() || !checkNotOwner(e, RunningIntentName) {
+			continue
+		}
+		if next == nil || next.Priority() > e.Priority() {
+			next = e
+		}
+	}
+	return next
 }
 
 // GetHighestPrecedenceRemaining returns the LeafEntry that rules once the pending
